@@ -20,6 +20,11 @@ package proxy
 //	             the same (RAG) world.
 //	bigindex   — forbidden-prompt / cache indexes of 40..2000 random vectors (c17_ext_test.go).
 //	paging     — invalidation on a cache index of more than 1000 entries (c17_ext_test.go).
+//	expiry     — answers the gateway stored itself grow older than a TTL of 2..12 s in real time and are then
+//	             asked for again (c17_ext_test.go).
+//
+// In every group the operator-created indexes may be memory indexes (time decay: the engine's rank order is not
+// the distance order) and the configuration may reach the gateway through proxy.yaml / LoadConfig.
 
 import (
 	"fmt"
@@ -45,6 +50,9 @@ func TestVerifC17(t *testing.T) {
 		ctx.Assume("'younger than the TTL' is judged only for entries at least 5 s (plus the duration of the request) away from the TTL on the harness clock; a case whose clock margins run out ends without a verdict (case.abandoned.*)")
 		ctx.Assume("on an index of more than 32 vectors the engine's search is approximate: a must-refuse / must-hit request that the engine's own beam-64 search does not find a neighbour for either is not judged (ann_miss), bounded per group and process by max(2, 0.4% of the decided near-requests)")
 		ctx.Assume("the query rewriter's LLM of RAG worlds is unreachable (rewriting fails, the gateway goes on with the latest user message)")
+		ctx.Assume("on a memory index (time decay) the reference still decides by metric distance alone: age, pinning and layer of a stored vector are the engine's ranking matters")
+		ctx.Assume("cache entries carry created_at in Unix seconds; the created_at of an answer the gateway stores itself must lie within the harness clock bracket of its request (+-1 s)")
+		ctx.Assume("expiry group: 'older than the TTL' is reached by waiting in real time (TTL 2..12 s + 6 s margin); a slower host only makes the entries older")
 		c17Probes(ctx)
 		c17ProbesExt(ctx)
 		ctx.Group("firewall", ctx.N(240, 6000), c17Quietly(ctx, func(cs *vkit.Case) { c17FirewallCase(ctx, cs) }))
@@ -54,6 +62,7 @@ func TestVerifC17(t *testing.T) {
 		c17AnnFloor(ctx, "bigindex")
 		ctx.Group("paging", ctx.N(2, 16), c17Quietly(ctx, func(cs *vkit.Case) { c17PagingCase(ctx, cs) }))
 		c17AnnFloor(ctx, "paging")
+		ctx.Group("expiry", ctx.N(8, 64), c17Quietly(ctx, func(cs *vkit.Case) { c17ExpiryCase(ctx, cs) }))
 	})
 }
 
@@ -401,10 +410,18 @@ func c17FirewallCase(ctx *vkit.Ctx, cs *vkit.Case) {
 		o.Tc = vkit.Pick(r, c17Thresholds)
 		o.TTL = vkit.Pick(r, []time.Duration{time.Minute, time.Hour, 24 * time.Hour})
 	}
+	if o.FwIndexCreated && r.Chance(0.35) {
+		o.FwMem = c17PickMem(r) // the operator keeps the forbidden prompts in a memory index
+	}
+	o.ViaYAML, o.OmitDefaults = r.Chance(0.3), r.Chance(0.5)
 	g := c17NewRig(ctx, cs, o)
 	defer g.close()
 	if o.FwIndexCreated {
-		for i, m := 0, r.Intn(5); i < m; i++ {
+		m := r.Intn(5)
+		if o.FwMem != nil {
+			m = r.Range(2, 5) // prompts of different ages side by side
+		}
+		for i := 0; i < m; i++ {
 			g.addForbidden(g.fwVector(g.sp.basis()))
 		}
 	}
@@ -547,8 +564,15 @@ func c17CacheCase(ctx *vkit.Ctx, cs *vkit.Case) {
 		o.CacheMetric = c17PickMetric(r)
 		o.CacheLang = vkit.Pick(r, []string{"english", "italian"})
 		o.CacheF16 = r.Chance(0.3)
+		if r.Chance(0.4) {
+			o.CacheMem = c17PickMem(r) // ... as a memory index
+		}
 	}
 	o.FwF16 = r.Chance(0.3)
+	if r.Chance(0.3) {
+		o.FwMem = c17PickMem(r)
+	}
+	o.ViaYAML, o.OmitDefaults = r.Chance(0.3), r.Chance(0.5)
 	var pats []c17Pattern
 	fwOff := false
 	if r.Chance(0.5) {
@@ -562,7 +586,11 @@ func c17CacheCase(ctx *vkit.Ctx, cs *vkit.Case) {
 	g := c17NewRig(ctx, cs, o)
 	defer g.close()
 	if o.FirewallEnabled || fwOff {
-		for i, m := 0, r.Intn(3); i < m; i++ {
+		m := r.Intn(3)
+		if o.FwMem != nil {
+			m = r.Range(2, 4)
+		}
+		for i := 0; i < m; i++ {
 			g.addForbidden(g.fwVector(g.sp.basis()))
 		}
 	}
@@ -793,6 +821,10 @@ func c17InvalidateCase(ctx *vkit.Ctx, cs *vkit.Case) {
 	}
 	// relevance floor of the retrieval: chunks scoring below it are neither injected nor cited
 	o.RAGThreshold = vkit.Pick(r, []float64{0, 0, 0.3, 0.64})
+	if o.FirewallEnabled && o.FwIndexCreated && r.Chance(0.3) {
+		o.FwMem = c17PickMem(r)
+	}
+	o.ViaYAML, o.OmitDefaults = r.Chance(0.25), r.Chance(0.5)
 	fam := vkit.Pick(r, c17IDFamilyNames)
 	if ctx.IsKnown("D-C17-5") {
 		fam = "underscore"
